@@ -163,8 +163,8 @@ func (a AST) Render(sb *bytes.Buffer, ro renderOpts) {
 	switch a.Tag {
 	case "n":
 		sb.WriteString(spell(ro.table[a.N], ro.rng))
-	case "s":
-		sb.WriteString(jsonString(a.S, false, nil))
+	case "s": // string values are spelled with an escaped first character as well (a type name written "\u0050oint" is "Point")
+		sb.WriteString(jsonString(a.S, ro.escape, ro.rng))
 	case "z":
 		sb.WriteString("null")
 	case "t":
